@@ -511,13 +511,14 @@ pub fn bool_vector_set(push_state: &mut PushState, _instruction_cache: &Instruct
 pub fn bool_vector_and(push_state: &mut PushState, _instruction_cache: &InstructionCache) {
     if let Some(mut bv) = push_state.bool_vector_stack.pop_vec(2) {
         if let Some(offset) = push_state.int_stack.pop() {
-            // Loop through indices of second item
+            // Loop through indices of the top item, shifted by the offset
             let scd_size = bv[0].values.len();
-            for i in 0..scd_size {
-                let ofs_idx = (i as i32 + offset) as usize;
-                if ofs_idx > scd_size - 1 {
+            for i in 0..bv[1].values.len() {
+                let ofs_idx = i as i64 + offset as i64;
+                if ofs_idx < 0 || ofs_idx >= scd_size as i64 {
                     continue; // Out of bounds
                 }
+                let ofs_idx = ofs_idx as usize;
                 bv[0].values[ofs_idx] &= bv[1].values[i];
             }
             push_state.bool_vector_stack.push(bv[0].clone());
@@ -546,13 +547,14 @@ pub fn bool_vector_get(push_state: &mut PushState, _instruction_cache: &Instruct
 pub fn bool_vector_or(push_state: &mut PushState, _instruction_cache: &InstructionCache) {
     if let Some(mut bv) = push_state.bool_vector_stack.pop_vec(2) {
         if let Some(offset) = push_state.int_stack.pop() {
-            // Loop through indices of second item
+            // Loop through indices of the top item, shifted by the offset
             let scd_size = bv[0].values.len();
-            for i in 0..scd_size {
-                let ofs_idx = (i as i32 + offset) as usize;
-                if ofs_idx > scd_size - 1 {
+            for i in 0..bv[1].values.len() {
+                let ofs_idx = i as i64 + offset as i64;
+                if ofs_idx < 0 || ofs_idx >= scd_size as i64 {
                     continue; // Out of bounds
                 }
+                let ofs_idx = ofs_idx as usize;
                 bv[0].values[ofs_idx] |= bv[1].values[i];
             }
             push_state.bool_vector_stack.push(bv[0].clone());
@@ -566,10 +568,11 @@ pub fn bool_vector_not(push_state: &mut PushState, _instruction_cache: &Instruct
     if let Some(mut bvval) = push_state.bool_vector_stack.pop() {
         if let Some(offset) = push_state.int_stack.pop() {
             for i in 0..bvval.values.len() {
-                let ofs_idx = (i as i32 + offset) as usize;
-                if ofs_idx > bvval.values.len() - 1 {
+                let ofs_idx = i as i64 + offset as i64;
+                if ofs_idx < 0 || ofs_idx >= bvval.values.len() as i64 {
                     continue; // Out of bounds
                 }
+                let ofs_idx = ofs_idx as usize;
                 bvval.values[ofs_idx] = !bvval.values[ofs_idx];
             }
             push_state.bool_vector_stack.push(bvval.clone());
@@ -818,13 +821,14 @@ pub fn int_vector_set(push_state: &mut PushState, _instruction_cache: &Instructi
 pub fn int_vector_add(push_state: &mut PushState, _instruction_cache: &InstructionCache) {
     if let Some(mut iv) = push_state.int_vector_stack.pop_vec(2) {
         if let Some(offset) = push_state.int_stack.pop() {
-            // Loop through indices of second item
+            // Loop through indices of the top item, shifted by the offset
             let scd_size = iv[0].values.len();
-            for i in 0..scd_size {
-                let ofs_idx = (i as i32 + offset) as usize;
-                if ofs_idx > scd_size - 1 {
+            for i in 0..iv[1].values.len() {
+                let ofs_idx = i as i64 + offset as i64;
+                if ofs_idx < 0 || ofs_idx >= scd_size as i64 {
                     continue; // Out of bounds
                 }
+                let ofs_idx = ofs_idx as usize;
                 iv[0].values[ofs_idx] += iv[1].values[i];
             }
             push_state.int_vector_stack.push(iv[0].clone());
@@ -840,13 +844,14 @@ pub fn int_vector_add(push_state: &mut PushState, _instruction_cache: &Instructi
 pub fn int_vector_subtract(push_state: &mut PushState, _instruction_cache: &InstructionCache) {
     if let Some(mut iv) = push_state.int_vector_stack.pop_vec(2) {
         if let Some(offset) = push_state.int_stack.pop() {
-            // Loop through indices of second item
+            // Loop through indices of the top item, shifted by the offset
             let scd_size = iv[0].values.len();
-            for i in 0..scd_size {
-                let ofs_idx = (i as i32 + offset) as usize;
-                if ofs_idx > scd_size - 1 {
+            for i in 0..iv[1].values.len() {
+                let ofs_idx = i as i64 + offset as i64;
+                if ofs_idx < 0 || ofs_idx >= scd_size as i64 {
                     continue; // Out of bounds
                 }
+                let ofs_idx = ofs_idx as usize;
                 iv[0].values[ofs_idx] -= iv[1].values[i];
             }
             push_state.int_vector_stack.push(iv[0].clone());
@@ -862,13 +867,14 @@ pub fn int_vector_subtract(push_state: &mut PushState, _instruction_cache: &Inst
 pub fn int_vector_multiply(push_state: &mut PushState, _instruction_cache: &InstructionCache) {
     if let Some(mut iv) = push_state.int_vector_stack.pop_vec(2) {
         if let Some(offset) = push_state.int_stack.pop() {
-            // Loop through indices of second item
+            // Loop through indices of the top item, shifted by the offset
             let scd_size = iv[0].values.len();
-            for i in 0..scd_size {
-                let ofs_idx = (i as i32 + offset) as usize;
-                if ofs_idx > scd_size - 1 {
+            for i in 0..iv[1].values.len() {
+                let ofs_idx = i as i64 + offset as i64;
+                if ofs_idx < 0 || ofs_idx >= scd_size as i64 {
                     continue; // Out of bounds
                 }
+                let ofs_idx = ofs_idx as usize;
                 iv[0].values[ofs_idx] *= iv[1].values[i];
             }
             push_state.int_vector_stack.push(iv[0].clone());
@@ -886,13 +892,14 @@ pub fn int_vector_divide(push_state: &mut PushState, _instruction_cache: &Instru
     if let Some(mut iv) = push_state.int_vector_stack.pop_vec(2) {
         if let Some(offset) = push_state.int_stack.pop() {
             let mut invalid = false;
-            // Loop through indices of second item
+            // Loop through indices of the top item, shifted by the offset
             let scd_size = iv[0].values.len();
-            for i in 0..scd_size {
-                let ofs_idx = (i as i32 + offset) as usize;
-                if ofs_idx > scd_size - 1 {
+            for i in 0..iv[1].values.len() {
+                let ofs_idx = i as i64 + offset as i64;
+                if ofs_idx < 0 || ofs_idx >= scd_size as i64 {
                     continue; // Out of bounds
                 }
+                let ofs_idx = ofs_idx as usize;
                 if iv[1].values[i] == 0 {
                     invalid = true;
                 } else {
@@ -1209,13 +1216,14 @@ pub fn float_vector_set(push_state: &mut PushState, _instruction_cache: &Instruc
 pub fn float_vector_add(push_state: &mut PushState, _instruction_cache: &InstructionCache) {
     if let Some(mut iv) = push_state.float_vector_stack.pop_vec(2) {
         if let Some(offset) = push_state.int_stack.pop() {
-            // Loop through indices of second item
+            // Loop through indices of the top item, shifted by the offset
             let scd_size = iv[0].values.len();
-            for i in 0..scd_size {
-                let ofs_idx = (i as i32 + offset) as usize;
-                if ofs_idx > scd_size - 1 {
+            for i in 0..iv[1].values.len() {
+                let ofs_idx = i as i64 + offset as i64;
+                if ofs_idx < 0 || ofs_idx >= scd_size as i64 {
                     continue; // Out of bounds
                 }
+                let ofs_idx = ofs_idx as usize;
                 iv[0].values[ofs_idx] += iv[1].values[i];
             }
             push_state.float_vector_stack.push(iv[0].clone());
@@ -1231,13 +1239,14 @@ pub fn float_vector_add(push_state: &mut PushState, _instruction_cache: &Instruc
 pub fn float_vector_subtract(push_state: &mut PushState, _instruction_cache: &InstructionCache) {
     if let Some(mut iv) = push_state.float_vector_stack.pop_vec(2) {
         if let Some(offset) = push_state.int_stack.pop() {
-            // Loop through indices of second item
+            // Loop through indices of the top item, shifted by the offset
             let scd_size = iv[0].values.len();
-            for i in 0..scd_size {
-                let ofs_idx = (i as i32 + offset) as usize;
-                if ofs_idx > scd_size - 1 {
+            for i in 0..iv[1].values.len() {
+                let ofs_idx = i as i64 + offset as i64;
+                if ofs_idx < 0 || ofs_idx >= scd_size as i64 {
                     continue; // Out of bounds
                 }
+                let ofs_idx = ofs_idx as usize;
                 iv[0].values[ofs_idx] -= iv[1].values[i];
             }
             push_state.float_vector_stack.push(iv[0].clone());
@@ -1253,13 +1262,14 @@ pub fn float_vector_subtract(push_state: &mut PushState, _instruction_cache: &In
 pub fn float_vector_multiply(push_state: &mut PushState, _instruction_cache: &InstructionCache) {
     if let Some(mut iv) = push_state.float_vector_stack.pop_vec(2) {
         if let Some(offset) = push_state.int_stack.pop() {
-            // Loop through indices of second item
+            // Loop through indices of the top item, shifted by the offset
             let scd_size = iv[0].values.len();
-            for i in 0..scd_size {
-                let ofs_idx = (i as i32 + offset) as usize;
-                if ofs_idx > scd_size - 1 {
+            for i in 0..iv[1].values.len() {
+                let ofs_idx = i as i64 + offset as i64;
+                if ofs_idx < 0 || ofs_idx >= scd_size as i64 {
                     continue; // Out of bounds
                 }
+                let ofs_idx = ofs_idx as usize;
                 iv[0].values[ofs_idx] *= iv[1].values[i];
             }
             push_state.float_vector_stack.push(iv[0].clone());
@@ -1277,13 +1287,14 @@ pub fn float_vector_divide(push_state: &mut PushState, _instruction_cache: &Inst
     if let Some(mut iv) = push_state.float_vector_stack.pop_vec(2) {
         if let Some(offset) = push_state.int_stack.pop() {
             let mut invalid = false;
-            // Loop through indices of second item
+            // Loop through indices of the top item, shifted by the offset
             let scd_size = iv[0].values.len();
-            for i in 0..scd_size {
-                let ofs_idx = (i as i32 + offset) as usize;
-                if ofs_idx > scd_size - 1 {
+            for i in 0..iv[1].values.len() {
+                let ofs_idx = i as i64 + offset as i64;
+                if ofs_idx < 0 || ofs_idx >= scd_size as i64 {
                     continue; // Out of bounds
                 }
+                let ofs_idx = ofs_idx as usize;
                 if iv[1].values[i] == 0.0 {
                     invalid = true;
                 } else {
